@@ -113,7 +113,15 @@ fn main() {
             let names: Vec<String> = l.constraints().iter().map(|c| c.name()).filter(|n| !n.is_empty()).collect();
             let mut nn = names.clone(); nn.sort(); nn.dedup();
             if nn.len() != names.len() { bad.push(format!("duplicate row names {:?}", names)); }
-            for v in vars { if v.starts_with('$') && decls.iter().any(|d| &d.name == v) { bad.push("aux collides with declared".into()); } }
+            // an auxiliary must never take over a declared variable: every declared variable that survives keeps its kind of
+            // domain and a range inside the declared one (names of the compiler's own style, `$or_0`, may be user names too)
+            for d in decls.iter() { if let Some(dv) = l.domain().get(&d.name) {
+                let same_kind = std::mem::discriminant(dv.get_type()) == std::mem::discriminant(&d.ty);
+                let rng = |t: &VariableType| match t { VariableType::Boolean => (0.0, 1.0), VariableType::IntegerRange(a, b) => (*a as f64, *b as f64), VariableType::NonNegativeReal(a, b) => (a.max(0.0), *b), VariableType::Real(a, b) => (*a, *b) };
+                let ((lo, hi), (dlo, dhi)) = (rng(dv.get_type()), rng(&d.ty));
+                if !same_kind { bad.push(format!("declared variable {} changed its kind of domain: declared {}, published {}", d.name, d.ty, dv.get_type())); }
+                else if lo < dlo - 1e-9 || hi > dhi + 1e-9 { bad.push(format!("declared variable {} published with a range outside its declaration: declared {}, published {}", d.name, d.ty, dv.get_type())); }
+            } }
             for (k, dv) in l.domain() {
                 let (lo, hi) = match dv.get_type() { VariableType::Boolean => (0.0, 1.0), VariableType::IntegerRange(a, b) => (*a as f64, *b as f64), VariableType::NonNegativeReal(a, b) | VariableType::Real(a, b) => (*a, *b) };
                 if !(lo <= hi) || lo == f64::INFINITY || hi == f64::NEG_INFINITY { bad.push(format!("ill-formed range of {k}: [{lo}, {hi}]")); }
